@@ -261,8 +261,8 @@ def check(run):
         run.check(ok and bool(deleg), 'R4', 'error-does-not-register', '%s: address_family_not_supported' % f.norm, f.loc(), 'family mismatch can still reach the registry', 'assigned and never reaches io_context::bind')
         setb = [a.site for a in q.field_accesses(f, {B + '::m_bound_to'}) if a.kind == 'assign']
         run.check(bool(setb) and all(any(q.render(f, a) == 'ec' and not p for a, p in q.guards_at(f, s)) for s in setb), 'R5', 'bound-only-on-success', f.norm, f.loc(), 'm_bound_to is set although the registry reported an error', 'm_bound_to set only when !ec')
-    run.floor('R8', 21)
-    run.floor('R5', 12)
+    run.floor('R8', 14)
+    run.floor('R5', 8)
 
 
 def is_end_test(fn, atom, itname=None):
